@@ -2,7 +2,8 @@
 # usage: matrix.sh [seed names...]
 # Every stored seeded change x (its own property's check + the checks of the properties
 # anchored in the files it touches).  2 seeds in parallel, 8 processes each.
-# PLAN_ONLY=1 prints the plan and exits.
+# PLAN_ONLY=1 prints the plan and exits.  OWN_ONLY=1: only the seed's own property (use with VERIF_SEED=n
+# to measure how seed-dependent detection is).
 cd "$(dirname "$0")"
 seeds="$@"
 [ -z "$seeds" ] && seeds=$(ls -d seeded/*/ | xargs -n1 basename)
@@ -10,6 +11,7 @@ plan() {
   s=$1
   list="${s%?}"
   files=$(grep '^+++ ' seeded/$s/patch.diff | sed 's#+++ b/##')
+  [ -n "$OWN_ONLY" ] && files=""
   for f in $files; do
     case $f in
       cache.go) list="$list C01 C02 C03 C06 C07 C15 C05";;
